@@ -41,34 +41,9 @@ func newStateNil(p *Prog) *stateNil {
 	sn := &stateNil{p: p, getters: map[*ssa.Function]snField{}, nilByType: map[*types.Named]map[snField]string{}}
 	// 1. pure getters
 	for _, fn := range p.RepoFns("spine") {
-		if fn.Signature.Recv() == nil || fn.Signature.Results().Len() != 1 || len(fn.Blocks) != 1 || len(fn.Params) != 1 {
-			continue
+		if f, ok := pureGetterField(fn); ok {
+			sn.getters[fn] = f
 		}
-		if _, isPtr := fn.Signature.Results().At(0).Type().Underlying().(*types.Pointer); !isPtr {
-			continue
-		}
-		var ret *ssa.Return
-		for _, ins := range fn.Blocks[0].Instrs {
-			if r, ok := ins.(*ssa.Return); ok {
-				ret = r
-			}
-		}
-		if ret == nil || len(ret.Results) != 1 {
-			continue
-		}
-		ld, ok := ret.Results[0].(*ssa.UnOp)
-		if !ok || ld.Op != token.MUL {
-			continue
-		}
-		fa, ok := ld.X.(*ssa.FieldAddr)
-		if !ok || fa.X != ssa.Value(fn.Params[0]) {
-			continue
-		}
-		s := namedOf(fa.X.Type())
-		if s == nil {
-			continue
-		}
-		sn.getters[fn] = snField{s, fa.Field}
 	}
 	// 2. constructors of S: functions allocating S; how each getter field is initialised
 	type ctorInit struct {
@@ -357,4 +332,71 @@ func (sn *stateNil) Nilable(c *ssa.Call) (string, bool) {
 		}
 	}
 	return "", false
+}
+
+// pureGetterField: fn is a method with no parameters that returns a pointer field of its receiver and does nothing
+// else — except taking and releasing a lock around the read (Lock/RLock … Unlock/RUnlock of package sync, deferred
+// or not). Such a getter reads the same field at every call.
+func pureGetterField(fn *ssa.Function) (snField, bool) {
+	var none snField
+	if fn.Signature.Recv() == nil || fn.Signature.Results().Len() != 1 || len(fn.Params) != 1 || len(fn.Blocks) == 0 {
+		return none, false
+	}
+	if _, isPtr := fn.Signature.Results().At(0).Type().Underlying().(*types.Pointer); !isPtr {
+		return none, false
+	}
+	var ret *ssa.Return
+	for _, b := range fn.Blocks {
+		if b == fn.Recover {
+			continue
+		}
+		for _, ins := range b.Instrs {
+			switch x := ins.(type) {
+			case *ssa.Return:
+				if ret != nil {
+					return none, false
+				}
+				ret = x
+			case *ssa.FieldAddr, *ssa.UnOp, *ssa.RunDefers, *ssa.DebugRef, *ssa.Alloc:
+			case *ssa.Store:
+				// only into the result cell a deferred call makes go/ssa spill the result to
+				if _, isCell := x.Addr.(*ssa.Alloc); !isCell {
+					return none, false
+				}
+			case *ssa.Call, *ssa.Defer:
+				callee := x.(ssa.CallInstruction).Common().StaticCallee()
+				if callee == nil || fnPkgPath(callee) != "sync" {
+					return none, false
+				}
+			default:
+				return none, false
+			}
+		}
+	}
+	if ret == nil || len(ret.Results) != 1 {
+		return none, false
+	}
+	ld, ok := ret.Results[0].(*ssa.UnOp)
+	if !ok || ld.Op != token.MUL {
+		return none, false
+	}
+	if cell, isCell := ld.X.(*ssa.Alloc); isCell {
+		// spilled result: the one value stored into the cell
+		sv := singleStore(cell)
+		if sv == nil {
+			return none, false
+		}
+		if ld, ok = sv.(*ssa.UnOp); !ok || ld.Op != token.MUL {
+			return none, false
+		}
+	}
+	fa, ok := ld.X.(*ssa.FieldAddr)
+	if !ok || fa.X != ssa.Value(fn.Params[0]) {
+		return none, false
+	}
+	s := namedOf(fa.X.Type())
+	if s == nil {
+		return none, false
+	}
+	return snField{s, fa.Field}, true
 }
